@@ -114,6 +114,9 @@ func newCubicSender(
 		maxDatagramSize:            initialMaxDatagramSize,
 	}
 	c.pacer = newPacer(c.BandwidthEstimate)
+	// The pacer has to use the same datagram size as the sender from the start:
+	// HasPacingBudget compares the budget with c.maxDatagramSize, TimeUntilSend with the pacer's value.
+	c.pacer.SetMaxDatagramSize(initialMaxDatagramSize)
 	if c.qlogger != nil {
 		c.lastState = qlog.CongestionStateSlowStart
 		c.qlogger.RecordEvent(qlog.CongestionStateUpdated{
